@@ -70,6 +70,8 @@ type world struct {
 	base                    *memory.Database // pristine previous-layout image
 	baseMD                  *migration.SchemaMetadata
 	optedAux, optedNewState bool // flags recorded in the base's last target
+	golden                  bool // the bookkeeping records are the previous release's bytes (golden.go)
+	sdlCkpt                 int  // -1: none; else an older run of the state-diff-length migration was interrupted with this checkpoint
 	leadEmpty, trailEmpty   int
 }
 
@@ -128,6 +130,9 @@ func (w *world) buildBase() {
 	for _, b := range w.chain {
 		cm, err := core.GetBlockCommitmentByBlockNum(mem, b.B.Number)
 		c.Must(err, "read commitments")
+		if w.sdlCkpt >= 0 && b.B.Number < uint64(w.sdlCkpt) {
+			continue // backfilled by the interrupted older run
+		}
 		cm.StateDiffLength = 0
 		c.Must(core.WriteBlockCommitment(mem, b.B.Number, cm), "rewrite commitments")
 	}
@@ -192,17 +197,38 @@ func (w *world) buildBase() {
 		target.Set(idxBlockTx)
 		write = true
 		applied = 0
-		c.Must(migration.WriteIntermediateState(mem, idxBlockTx, []byte{}), "write resume token")
+		putState(c, mem, idxBlockTx, relEncState(idxBlockTx, nil), w.golden)
+	}
+	if w.sdlCkpt >= 0 {
+		// an older run of the state-diff-length migration that was cancelled (or, with a checkpoint below
+		// the floor, crashed after the history pruner of a later start had completed): target recorded,
+		// checkpoint stored, every retained block below it backfilled
+		target.Set(idxSDL)
+		write = true
+		putState(c, mem, idxSDL, relEncState(idxSDL, []uint64{uint64(w.sdlCkpt)}), w.golden)
 	}
 	if write {
 		md := migration.SchemaMetadata{CurrentVersion: applied, LastTargetVersion: target}
-		c.Must(migration.WriteSchemaMetadata(mem, md), "write schema metadata")
+		putMeta(c, mem, md, w.golden)
 		w.baseMD = &md
+	}
+	if w.golden {
+		putLegacy(c, mem)
 	}
 	w.base = mem
 }
 
+// readMeta is the harness's view of the schema metadata. A record in the released format is decoded
+// by the harness itself (golden.go): what such a record says does not depend on how the code under
+// test reads it. Anything else (no record, another encoding) is what the code under test reads.
 func readMeta(c *sim.Ctx, r db.KeyValueReader) migration.SchemaMetadata {
+	if raw, found, err := rawGet(r, relMetaKey); err != nil {
+		c.Broken("read schema metadata: %v", err)
+	} else if found {
+		if cur, tgt, ok := relDecMeta(raw); ok {
+			return migration.SchemaMetadata{CurrentVersion: migration.SchemaVersion(cur), LastTargetVersion: migration.SchemaVersion(tgt)}
+		}
+	}
 	md, err := migration.GetSchemaMetadata(r)
 	if err != nil {
 		if isNotFound(err) {
